@@ -306,6 +306,12 @@ class Clean:
             after = fn.reachable_from_after(eb, cut_blocks=zero_blocks, cut_edges=cut_edges)
             for (xb, xk, xe) in exits:
                 if xb not in after and not (xb == eb and kind != "store"):
+                    # the other order: the failing value was produced first (`let res = open(..); buf.rotate_left(n);
+                    # res`) and the buffer is written while that value is on its way to the return
+                    if xk == "err" and xb != eb and eb in fn.reachable_from_after(xb, cut_blocks=zero_blocks):
+                        rets0_ = [b_ for b_ in range(fn.n) if fn.blocks[b_]["t"]["k"] == "return"]
+                        if any(r_ in fn.reachable_from_after(eb, cut_blocks=zero_blocks) for r_ in rets0_):
+                            s.violations.append((eb, xb, text, "the Err value produced at %s is returned after this write with no zeroing in between" % fn.loc(xb)))
                     continue
                 if xb == eb and xb not in after:
                     # tail call `_0 = g(buf)`: Err exit is the callee's own Err
